@@ -228,6 +228,10 @@ static void Table_Clear(var self) {
 
 static void Table_Assign(var self, var obj) {
   struct Table* t = self;  
+  
+  /* Assigned from itself: nothing to do (and nothing to clear first) */
+  if (self is obj) { return; }
+  
   Table_Clear(t);
   
   t->ktype = implements_method(obj, Get, key_type) ? key_type(obj) : Ref;
